@@ -390,8 +390,10 @@ theorem simplify_sstep (o : Opts) (e : Expr) (he : WF e) (hq : Plain e) (hopt : 
       simp only [Bool.false_eq_true, if_false]
       split
       · split
-        · refine SPost_of_eq (ih.callOp oo l' r' hlw hrw hlq hrq hag (fun _ => hlr)) ?_
-          rw [ideal_op_agn ρ oo l' r' size sf prop hag]
+        · apply SPost_bind; intro res hres
+          have := ih.callOp oo l' r' hlw hrw hlq hrq hag (fun _ => hlr) res hres
+          exact SPost_pure ((Plain_setSf _ _).mpr this.1)
+            (by rw [ideal_setSf, this.2, ideal_op_agn ρ oo l' r' size sf prop hag])
         · split
           · rename_i hm
             simp only [beq_iff_eq] at hm
